@@ -608,152 +608,45 @@ func (h *fuzzHist) snapOracle(c *Ctx, who string, live *crdt.Root, pres map[stri
 			h.collectElements(seed.Root, 0)
 		}
 	}
-	canonElement(pa.Root)
-	canonElement(pb.Root)
-	eq0 := proto.Equal(pa, pb)
-	masked := func(level int) bool {
-		qa, qb := proto.Clone(pa).(*api.Snapshot), proto.Clone(pb).(*api.Snapshot)
-		maskMemberTickets(qa.Root, level)
-		maskMemberTickets(qb.Root, level)
-		canonElement(qa.Root)
-		canonElement(qb.Root)
-		return proto.Equal(qa, qb)
-	}
-	// eq1: equal up to the *values* of moved_at/removed_at of object members; eq2: equal up to
-	// their presence as well.  Decoding an object replays the last-writer-wins race between the
-	// members of one key in wire order (= Go map order of the encoder): it can move a tombstone's
-	// removed_at, tombstone a member that was live, or leave live a member that was removed.
-	eq1 := eq0 || masked(1)
-	eq2 := eq1 || masked(2)
-	if !eq0 && eq1 {
-		c.Count("note:object-member-ticket-drift-on-decode")
-	}
-	// the encoded graphs agree on everything but moved_at/removed_at of object members: whatever is
-	// observed (a resurrected or vanished key, one tombstone more or less) comes from the replayed
-	// last-writer-wins race, the third confirmed C02 defect (LWW loser not tombstoned while the
-	// occupant is removed, resurrected once the occupant is purged)
-	rht := func() string {
-		// (eq0 with a visible difference means the encoding itself dropped something: not this finding)
-		if eq2 && !eq0 {
-			return "KNOWN[c02-rht-lww-replay-on-decode] "
-		}
-		return ""
-	}
+	rep := h.analyseSnapshot(live, obj, pa, pb)
 	m1, m2 := root.Marshal(), obj.Marshal()
-	// is the live root consistent with itself?  (a copy of it must marshal and count garbage alike)
-	undoGC := func() string {
-		if !((h.class == "B" || h.class == "D") && h.undone) {
-			return ""
-		}
-		rc, err := live.DeepCopy()
-		if err != nil || rc.Object().Marshal() != m1 || rc.GarbageLen() != garbage {
-			// undo/redo leaves the live root inconsistent with its own graph: an element restored under
-			// its old createdAt is the occupant of the key while the by-createdAt table (what the
-			// encoder and DeepCopy walk) still holds the tombstoned instance; with GC on, stale garbage
-			// registrations purge or hide it (the upstream-known C15 finding)
-			return "KNOWN[c15-undo-live-root-inconsistent] "
-		}
-		return ""
-	}
-	if m1 != m2 && os.Getenv("PBFUZZ_DUMP") != "" && !h.dumped {
-		h.dumped = true
-		_ = os.WriteFile("/tmp/w-c09/dump_a.txt", []byte(strings.ReplaceAll(protoTextLong(pa), "nodes:", "\nnodes:")), 0o644)
-		_ = os.WriteFile("/tmp/w-c09/dump_b.txt", []byte(strings.ReplaceAll(protoTextLong(pb), "nodes:", "\nnodes:")), 0o644)
-		fmt.Fprintf(os.Stderr, "DUMP snapshot %s eq0=%v eq1=%v eq2=%v\n", who, eq0, eq1, eq2)
-	}
-	// class C: equal once arrays are compared as multisets of elements (and member tickets masked)
-	arrayOnly := func() string {
-		if !(h.class == "C" && h.moved) {
-			return ""
-		}
-		qa, qb := proto.Clone(pa).(*api.Snapshot), proto.Clone(pb).(*api.Snapshot)
-		maskMemberTickets(qa.Root, 2)
-		maskMemberTickets(qb.Root, 2)
-		maskArrays(qa.Root)
-		maskArrays(qb.Root)
-		canonElement(qa.Root)
-		canonElement(qb.Root)
-		if proto.Equal(qa, qb) {
-			return "KNOWN[c02-array-add-anchor] "
-		}
-		return ""
-	}
 	if m1 != m2 {
-		tag := rht()
-		if tag == "" {
-			tag = undoGC()
-		}
-		if tag == "" {
-			tag = arrayOnly()
-		}
-		h.mismatch(c, tag+"snapshot-marshal("+who+")", m1, m2)
+		tag := h.explainMarshal(rep, live, m1, m2)
+		rep.add(tag, "Marshal() differs: "+firstDiff(m1, m2))
 	}
-	dec := crdt.NewRoot(obj)
-	if gl := dec.GarbageLen(); gl != garbage {
-		var only []string
-		lm, dm := live.GCElementPairMap(), dec.GCElementPairMap()
-		arraySetOnly := gl-dec.GarbageElementLen() == garbage-live.GarbageElementLen()
-		for k, p := range dm {
-			p := p
-			if _, ok := lm[k]; !ok {
-				if !h.replaced[k] {
-					arraySetOnly = false
-				}
-				only = append(only, fmt.Sprintf("decoded-only:%s(%T,removedAt=%s)", k, p.Elem(), p.Elem().RemovedAt().ToTestString()))
-			}
-		}
-		for k, p := range lm {
-			p := p
-			if _, ok := dm[k]; !ok {
-				arraySetOnly = false
-				only = append(only, fmt.Sprintf("live-only:%s(%T)", k, p.Elem()))
-			}
-		}
-		sort.Strings(only)
-		what := "snapshot-garbagelen(" + who + ")"
-		// garbage recomputed from the live object graph itself (no codec involved)
-		recomputed := -1
-		if rc, err := live.DeepCopy(); err == nil {
-			recomputed = rc.GarbageLen()
-		}
-		only = append(only, fmt.Sprintf("recomputed-from-live-graph:%d", recomputed))
-		switch {
-		case arraySetOnly:
-			// every surplus tombstone is an array element replaced by ArraySet, which the live root
-			// never registers as garbage ("TODO(junseo): GC logic is not implemented here")
-			what = "KNOWN[c09-arrayset-garbage-unregistered] " + what
-		case recomputed == gl:
-			// the codec kept every tombstone and GC pair of the graph; it is the live root's own
-			// bookkeeping (gcElementPairMap / gcNodePairMap) that disagrees with its graph
-			what = "KNOWN[c09-live-garbage-bookkeeping-differs-from-graph] " + what
-		case h.class == "D" && h.styled && h.undone && gl-dec.GarbageElementLen() < garbage-live.GarbageElementLen():
-			// a removed text attribute is a GC node pair of the live text; its IsRemoved flag is not
-			// serialised, so the decoded text has the attribute back and the pair is gone
-			what = "KNOWN[c02-text-attr-removed] " + what
-		case h.class == "C" && h.moved && gl-dec.GarbageElementLen() == garbage-live.GarbageElementLen():
-			// after array moves the decode path (AddMovedElement / Add, dead position nodes) and the
-			// live list disagree on which array members are tombstones: same family as the reordering
-			what = "KNOWN[c02-array-add-anchor] " + what
-		default:
-			tag := rht()
-			if tag == "" {
-				tag = undoGC()
-			}
-			what = tag + what
-		}
-		h.mismatch(c, what, fmt.Sprintf("%d (elements %d, node pairs %d)", garbage, live.GarbageElementLen(), garbage-live.GarbageElementLen()),
-			fmt.Sprintf("%d (elements %d, node pairs %d) %s", gl, dec.GarbageElementLen(), gl-dec.GarbageElementLen(), strings.Join(only, " ")))
+	if gl := crdt.NewRoot(obj).GarbageLen(); gl != garbage && len(rep.by) == 0 {
+		rep.add("", fmt.Sprintf("GarbageLen %d became %d and no differing item was found", garbage, gl))
 	}
-	if !eq1 {
-		tag := rht()
-		if tag == "" {
-			tag = undoGC()
+	h.emit(c, "snapshot("+who+")", rep)
+}
+
+// emit writes one oracle line per finding of a report (known findings a few times per run, then
+// only counted) and one untagged line for everything no predicate explains.
+func (h *fuzzHist) emit(c *Ctx, where string, rep *snapReport) {
+	var tags []string
+	for t := range rep.by {
+		tags = append(tags, t)
+	}
+	sort.Strings(tags)
+	for _, t := range tags {
+		f := rep.by[t]
+		sort.Strings(f.items)
+		items := f.items
+		if len(items) > 6 {
+			items = append(append([]string{}, items[:6]...), fmt.Sprintf("… %d more", len(f.items)-6))
 		}
-		if tag == "" {
-			// arrays compared as multisets of elements, position bookkeeping ignored
-			tag = arrayOnly()
+		prefix := ""
+		if t != "" {
+			prefix = "KNOWN[" + t + "] "
+			c.Count("oracle:KNOWN[" + t + "]")
+			knownWritten[prefix]++
+			if knownWritten[prefix] > 3 {
+				continue
+			}
+		} else {
+			c.Count("oracle:unexplained:" + where[:strings.Index(where, "(")])
 		}
-		h.mismatch(c, tag+"snapshot-reencode("+who+")", protoTextLong(pa), protoTextLong(pb))
+		c.Oracle("%s", strings.ToValidUTF8(fmt.Sprintf("%s%s: %s", prefix, where, strings.Join(items, "; ")), "?"))
 	}
 }
 
